@@ -18,13 +18,16 @@ PKG = "pyscsi"
 SOURCES = {}  # path -> sha256 of the source that was instrumented
 COUNTS = {"calls": 0, "subscripts": 0, "contains": 0, "mods": 0, "ticks": 0}
 
+TRACE = False  # trace mode (C09 threads): also route attribute loads/stores and item stores through the tracer
+
+_TRACE_HELPERS = "from symx.trace import ga as _sx_ga, sa as _sx_sa, si as _sx_si"
 _HELPERS = "from symx.rt import call as _sx_call, getitem as _sx_getitem, contains as _sx_contains, mod as _sx_mod, tick as _sx_tick"
 
 
 class _Tx(ast.NodeTransformer):
     def visit_Call(self, node):
         self.generic_visit(node)
-        if isinstance(node.func, ast.Name) and node.func.id in ("super", "_sx_call", "_sx_getitem",
+        if isinstance(node.func, ast.Name) and node.func.id in ("super", "_sx_call", "_sx_getitem", "_sx_ga", "_sx_sa", "_sx_si",
                                                                "_sx_contains", "_sx_mod", "_sx_tick",
                                                                "locals", "globals", "vars"):
             return node
@@ -108,8 +111,89 @@ class _Tx(ast.NodeTransformer):
         return node
 
 
+class _TraceTx(ast.NodeTransformer):
+    """shared-memory access tracing: o.a -> _sx_ga(o,'a'); o.a = v -> _sx_sa(o,'a',v); o[i] = v -> _sx_si(o,i,v);
+    augmented assignments are expanded.  Runs before the main transformer."""
+
+    def __init__(self):
+        self.cls = []
+
+    def visit_ClassDef(self, node):
+        self.cls.append(node.name)
+        self.generic_visit(node)
+        self.cls.pop()
+        return node
+
+    def _mangle(self, attr):
+        if attr.startswith("__") and not attr.endswith("__") and self.cls:
+            return "_" + self.cls[-1].lstrip("_") + attr
+        return attr
+
+    def visit_Attribute(self, node):
+        self.generic_visit(node)
+        if isinstance(node.ctx, ast.Load):
+            return ast.copy_location(ast.Call(func=ast.Name(id="_sx_ga", ctx=ast.Load()),
+                                              args=[node.value, ast.Constant(value=self._mangle(node.attr))], keywords=[]), node)
+        return node
+
+    def _store(self, target, value, node):
+        if isinstance(target, ast.Attribute):
+            return ast.copy_location(ast.Expr(value=ast.Call(
+                func=ast.Name(id="_sx_sa", ctx=ast.Load()),
+                args=[target.value, ast.Constant(value=self._mangle(target.attr)), value], keywords=[])), node)
+        if isinstance(target, ast.Subscript):
+            return ast.copy_location(ast.Expr(value=ast.Call(
+                func=ast.Name(id="_sx_si", ctx=ast.Load()), args=[target.value, target.slice, value], keywords=[])), node)
+        return None
+
+    def visit_Assign(self, node):
+        node.value = self.visit(node.value)
+        if len(node.targets) == 1 and isinstance(node.targets[0], (ast.Attribute, ast.Subscript)):
+            t = node.targets[0]
+            t.value = self.visit(t.value)
+            if isinstance(t, ast.Subscript):
+                t.slice = self.visit(t.slice)
+            r = self._store(t, node.value, node)
+            if r is not None:
+                return r
+        node.targets = [self.visit(t) for t in node.targets]
+        return node
+
+    def visit_AugAssign(self, node):
+        node.value = self.visit(node.value)
+        t = node.target
+        if isinstance(t, (ast.Attribute, ast.Subscript)):
+            import copy
+            t.value = self.visit(t.value)
+            if isinstance(t, ast.Subscript):
+                t.slice = self.visit(t.slice)
+            load = copy.deepcopy(t)
+            load.ctx = ast.Load()
+            if isinstance(load, ast.Attribute):
+                cur = ast.Call(func=ast.Name(id="_sx_ga", ctx=ast.Load()),
+                               args=[load.value, ast.Constant(value=self._mangle(load.attr))], keywords=[])
+            else:
+                cur = load
+            newv = ast.BinOp(left=cur, op=node.op, right=node.value)
+            r = self._store(t, newv, node)
+            if r is not None:
+                return r
+        return node
+
+    def visit_AnnAssign(self, node):
+        if node.value is not None:
+            node.value = self.visit(node.value)
+        return node
+
+    def visit_Delete(self, node):
+        return node
+
+
 def instrument(source, path):
     tree = ast.parse(source, path)
+    if TRACE:
+        tree = _TraceTx().visit(tree)
+        ast.fix_missing_locations(tree)
     tree = _Tx().visit(tree)
     # helper import goes after the docstring and any __future__ imports
     k = 0
@@ -119,7 +203,7 @@ def instrument(source, path):
         k = 1
     while k < len(body) and isinstance(body[k], ast.ImportFrom) and body[k].module == "__future__":
         k += 1
-    imp = ast.parse(_HELPERS).body
+    imp = ast.parse(_HELPERS).body + (ast.parse(_TRACE_HELPERS).body if TRACE else [])
     tree.body = body[:k] + imp + body[k:]
     ast.fix_missing_locations(tree)
     return tree
